@@ -277,6 +277,10 @@ T = {
         "an event record larger than 8 KiB whose length is not a multiple of 8192",
         [],
         "NOT caught: needs a payload of more than 8192 bytes, the check's bound is 4 content bytes.  Outside the stated bounds"),
+    "C06-rewind-tree-first-position": (
+        "C06", "FileSystemEventLog::rewind truncates the in-memory tree at the FIRST leaf equal to the target (crates/filesystem/src/event_log.rs)",
+        "byte-identical events in one log, a rewind to the repeated commit with another record between the occurrences",
+        ["C06 per-operation: rewind (memory tree shorter than the file)"], "caught at first run"),
     # ---- round 4 (server request handlers, merge replay, database vault mirror, open path)
     "C07-server-rollback-skipped-when-contains": (
         "C07", "server_helpers::event_patch rolls the rewind back only for Conflict { contains: None } (crates/storage/server/src/server_helpers.rs)",
@@ -291,7 +295,9 @@ T = {
     "C20-archive-kind-decrement": (
         "C20", "DocumentCount::remove folded into a helper that lost the !is_archived guard of the kind counter (crates/search/src/search.rs)",
         "an archive folder, a document leaving it while another non-archived document of the same kind exists",
-        ["C20 per-kind counters differ from a recount"], "caught at first run"),
+        ["C20 per-kind counters differ from a recount"],
+        "MISSED by the quick tier at first (needs three operations with an archive folder; the thorough tier covers them): the "
+        "slice add(outside); add(into the archive); any operation joined the quick tier; caught"),
     "C20-merge-skip-reindex-same-text": (
         "C20", "FolderMerge::merge keeps the old index document when label/tags/comment/websites are unchanged (crates/storage/client/src/folder_sync.rs)",
         "an UpdateSecret received through a merge that changes only the favourite flag (or kind) of a secret",
